@@ -25,6 +25,8 @@ fn op_list() -> Vec<String> {
     v.push("vh.sha256".into());
     // RIPEMD-160 in a circuit built on RipeMD160Chip (not reachable through ZkStdLib)
     v.push("hr.ripemd160".into());
+    // variable-length Poseidon over a vector of capacity 8 (default and chosen filler)
+    v.push("vp.poseidon".into());
     crate::ops::dev_filter(v)
 }
 
@@ -35,10 +37,10 @@ impl Check for C07 {
     fn meta(&self) -> Meta {
         Meta {
             level: "exploration",
-            rule: "one run = one message hashed in circuit (SHA-256, SHA-512, SHA3-256, Keccak-256, BLAKE2b-256/512 through the standard library, messages of 0..2 blocks with every length around the padding boundaries 55/56/63/64, 111/112/119/120/127/128, 135/136/137 and all-zero / all-0xff / random contents; fixed-length Poseidon on 0..12 field elements incl. boundary values; Poseidon sponge sequences of absorbs (incl. empty ones) and squeezes in fixed- and variable-length mode on PoseidonChip; RIPEMD-160 on RipeMD160Chip, 0..120 bytes around 55/56/63/64/119/120; variable-length SHA-256 over a vector of capacity 128 with every length class and a default or chosen filler byte, whose unused cells the Byzantine stage overwrites), executed honestly and under Byzantine plans (single and multi-cell faults sampled over the whole trace, honest continuation, local repair of failing gate rows incl. additive-selector constraints). The published input bytes and digest must satisfy the reference function (sha2, sha3, ripemd, blake2b_simd crates; for Poseidon the library's off-circuit hash AND an independent textbook permutation over the repository's constants). distinct_nontrivial counts distinct honest cases plus (case, plan) digests whose plan fired",
+            rule: "one run = one message hashed in circuit (SHA-256, SHA-512, SHA3-256, Keccak-256, BLAKE2b-256/512 through the standard library, messages of 0..2 blocks with every length around the padding boundaries 55/56/63/64, 111/112/119/120/127/128, 135/136/137 and all-zero / all-0xff / random contents; fixed-length Poseidon on 0..12 field elements incl. boundary values; Poseidon sponge sequences of absorbs (incl. empty ones) and squeezes in fixed- and variable-length mode on PoseidonChip; RIPEMD-160 on RipeMD160Chip, 0..120 bytes around 55/56/63/64/119/120; variable-length SHA-256 over a vector of capacity 128 with every length class and a default or chosen filler byte, whose unused cells the Byzantine stage overwrites; variable-length Poseidon over a vector of capacity 8 with the default or a chosen filler element), executed honestly and under Byzantine plans (single and multi-cell faults sampled over the whole trace, honest continuation, local repair of failing gate rows incl. additive-selector constraints). The published input bytes and digest must satisfy the reference function (sha2, sha3, ripemd, blake2b_simd crates; for Poseidon the library's off-circuit hash AND an independent textbook permutation over the repository's constants). distinct_nontrivial counts distinct honest cases plus (case, plan) digests whose plan fired",
             assumptions: vec![
                 "MockProver is the constraint model, including additive-selector constraints since the C02 repair",
-                "RIPEMD-160, Poseidon sponge sequences and variable-length SHA-256 are not reachable through ZkStdLib: they run in circuits built on the chips' FromScratch configurations; the variable-length Poseidon gadget is not covered; for variable-length SHA-256 the Byzantine stage edits only the unused cells of the buffer (the input vector is crate-private and cannot be published)",
+                "RIPEMD-160, Poseidon sponge sequences and variable-length SHA-256 are not reachable through ZkStdLib: they run in circuits built on the chips' FromScratch configurations; for variable-length SHA-256 and Poseidon the Byzantine stage edits only the unused cells of the buffer (the input vector is crate-private and cannot be published)",
                 "fault sites are sampled (these chips make 10^3..10^5 assignments)",
             ],
             components: vec![
@@ -72,7 +74,7 @@ impl Check for C07 {
         };
         // the variable-length gadget's input vector cannot be published from outside the crate:
         // no Byzantine stage for it (there would be nothing to judge an accepted execution by)
-        let honest_only = op.starts_with("vh.");
+        let honest_only = op.starts_with("vh.") || op.starts_with("vp.");
         opcheck::to_json(&Scn { case, fault_seed: rng.u64(), n_plans, only: honest_only.then(Vec::new), only_late: honest_only.then(Vec::new) })
     }
     fn execute(&self, scn: &Value, st: &mut Stats) -> Verdict {
